@@ -65,7 +65,7 @@ def run(ctx) -> None:
         if short in ACCUMULATORS:
             ctx.ok("R20.1", short, f"documented accumulator: {ACCUMULATORS[short]}")
             continue
-        r20_1(ctx, ctx.unit(short))
+        r20_1(ctx, ctx.inlined(ctx.unit(short)))
     r20_2(ctx)
     r20_3(ctx)
     r20_5(ctx)
@@ -281,14 +281,15 @@ def _window(ctx, u, cfg, name: Optional[str], grown: ast.AST, n: Node) -> Tuple[
                     "the initial fill is not bounded by range(n)")
         return False, "the heap grows outside its initial fill"
     if short == "heapq.merge":
+        fill_name = ctx.unit("heapq._KeyIter.from_iters").node.name  # (found structurally when renamed / moved)
         comp = grown if isinstance(grown, ast.ListComp) else None
         if comp is not None:
             text = norm(comp.generators[0].iter)
-            ok = "from_iters" in text
+            ok = fill_name in text
             return (ok, "one head holder per source (from_iters yields one per iterator)" if ok else
                     "the heap is not filled from the per-source initial fill")
         # explicit fill loop: the enclosing async-for ranges over the per-source generator
-        fills = [a for (k, a) in n.regions if k == "loop" and isinstance(a, ast.AsyncFor) and "from_iters" in norm(a.iter)]
+        fills = [a for (k, a) in n.regions if k == "loop" and isinstance(a, ast.AsyncFor) and fill_name in norm(a.iter)]
         if fills and n.kind == "call" and norm(n.ast.func).split(".")[-1] == "append":
             return True, "one head holder per source (filled in the loop over from_iters)"
         return False, "the heap grows outside its initial fill"
@@ -340,10 +341,11 @@ class _Relabel:
 
 def r20_3(ctx) -> None:
     for short in ("heapq.merge", "heapq._largest"):
-        u = ctx.unit(short)
+        u = ctx.inlined(ctx.unit(short))
         cfg = cfg_of(u)
         loops = _loops_with_pulls(ctx, u)
-        refill = [n for n in cfg.nodes if n.kind == "await" and not n.tag and "pull_head" in norm(n.ast)]
+        puller = c01.holder_roles(ctx)["puller"].node.name
+        refill = [n for n in cfg.nodes if n.kind == "await" and not n.tag and f".{puller}(" in norm(n.ast)]
         loop_asts = [a for (a, _p) in loops] + [a for r in refill for (k, a) in r.regions if k == "loop"]
         ops = []
         for n in cfg.nodes:
